@@ -155,6 +155,11 @@ def run(ctx):
         strip(pc_term_[1]) == ("cmp", "==", ("attr", ("param", con.params[0]), "_protocol_version"), ("const", 3))
     ctx.ob("C07.b", con.qual, sel_ok, "protocol class = V3 exactly when _protocol_version == 3", func=con.qual, file=file, construct="protocol_class selection",
            detail={"term": show(pc_term_) if pc_term_ else None}, fail="the protocol class selection changed")
+    from .c06 import flush_before_write
+    pa = ctx.fn(f"{V3}.authenticate")
+    ctx.ob("C07.b", pa.qual, flush_before_write(prog, pa), "the session key comes from the reply to *this* handshake: the queue is flushed on every path before the request",
+           func=pa.qual, file=file, construct="_flush() before write()",
+           fail="a stale reply of an earlier handshake can be read as this handshake's reply: data is then not encrypted under the key of the latest handshake")
     # ---------------------------------------------------------------- C07.c counter
     w = ctx.fn(f"{V3}.write")
     ws = summarize(prog, w)
